@@ -265,6 +265,7 @@ def compile_stage(ctx, tlgen, todo, texts, model, meta):
                 C.violation(ctx, key + ":layout", "generated package for %s declares something else than the schema says (Classify.v): expected %s got %s"
                             % (label, [show_item(x) for x in w], [show_item(x) for x in g]),
                             {"schema_text": texts[cid].decode("utf-8", "replace"), "expected": [show_item(x) for x in w], "got": [show_item(x) for x in g],
+                             "expected_all": sorted(list(x) for x in want),
                              "oracle": "descriptors of TLGen/Classify.v (theorem C14_layout) vs reflection of the compiled package"})
                 continue
             st["reflected_equal"] += 1
@@ -430,6 +431,14 @@ def run(ctx):
             C.violation(ctx, key + ":rejected", "ParseSchema rejects the shipped generator input schemes/%s: %s" % (label, txt([r for r in rows if r[0] == "P"][0][3])),
                         dict(replay, schema_text="<schemes/%s>" % label, schema_hex="", schema_file="schemes/" + label, expected="ok", got=icls))
             continue
+        wdefs = [tuple(r[2:]) for r in rows if r[0] == "W"]
+        if kind == "valid" and sorted(wdefs) != sorted(idefs) or (kind == "valid" and [d for d in wdefs if d[0] == "o"] != [d for d in idefs if d[0] == "o"]):
+            first = next((d for d in idefs if d not in wdefs), None)
+            miss = next((d for d in wdefs if d not in idefs), None)
+            C.violation(ctx, key + ":wrong-parse",
+                        "ParseSchema does not extract what the schema declares: got %s, declared %s" % (show_def(first) if first else None, show_def(miss) if miss else None),
+                        dict(replay, expected=[show_def(d) for d in wdefs], got=[show_def(d) for d in idefs][:60], oracle="definitions the generator wrote"))
+            continue
         if mcls != icls or mdefs != idefs:
             disagreements += 1
             first = next((i for i in range(max(len(mdefs), len(idefs))) if i >= len(mdefs) or i >= len(idefs) or mdefs[i] != idefs[i]), None)
@@ -532,6 +541,13 @@ def replay(ctx, path):
             if bad:
                 print("VIOLATION property=C14 replay=%s" % path)
             return 1 if bad else 0
+        if obj.get("oracle") == "definitions the generator wrote":
+            got = [show_def(tuple(l.split("\t")[2:])) for l in o.splitlines() if l.startswith("D\t")]
+            bad = sorted(got) != sorted(obj.get("expected", []))
+            print("declared %d definitions, extracted %d; %s" % (len(obj.get("expected", [])), len(got), "DIFFERENT" if bad else "equal"))
+            if bad:
+                print("VIOLATION property=C14 replay=%s" % path)
+            return 1 if bad else 0
         bad = not o.startswith("P\tok")
         if not bad:
             os.makedirs(d + "/out")
@@ -548,6 +564,19 @@ def replay(ctx, path):
             rc, o = C.sh(["go", "build", "-gcflags=-e", "./out"], cwd=d, timeout=900)
             print("go build rc=%d %s" % (rc, o.strip()[:600]))
             bad = rc != 0
+            if not bad and obj.get("expected_all") is not None:
+                os.makedirs(d + "/cmd/r")
+                with open(d + "/cmd/r/main.go", "w") as f:
+                    f.write(open(HERE + "/reflect/main.go.tmpl").read().replace("__PKG__", "github.com/xelaj/mtproto/verifscratch/out"))
+                rc, o = C.sh(["go", "build", "-tags", "verif", "-o", d + "/r", "./cmd/r"], cwd=d, timeout=900)
+                if rc != 0:
+                    raise C.BuildError("reflection program does not build: " + o[-1500:])
+                rc, o = C.sh([d + "/r"], timeout=300)
+                got = reflect_proj([l.split("\t") for l in o.splitlines() if l])
+                want = set(tuple(x) for x in obj["expected_all"])
+                diff = sorted(want ^ got)
+                print("reflection: %d descriptors, %d differ from the schema's: %s" % (len(got), len(diff), [show_item(x) for x in diff[:4]]))
+                bad = rc != 0 or bool(diff)
         if bad:
             print("VIOLATION property=C14 replay=%s" % path)
             return 1
